@@ -93,6 +93,7 @@ func (s *Session) builtin(fr *Frame, b *ssa.Builtin, cc *ssa.CallCommon, args []
 // appendOp: the result always lives in a fresh backing array (old contents copied); aliasing of
 // the result with the argument's spare capacity is not modelled.
 func (s *Session) appendOp(fr *Frame, cc *ssa.CallCommon, args []Val, st *State) Val {
+	s.aliasScreen(fr, cc, st)
 	st0 := args[0]
 	slT := cc.Args[0].Type().Underlying().(*types.Slice)
 	et := slT.Elem()
@@ -349,4 +350,34 @@ func (s *Session) lockOp(fr *Frame, name string, args []Val, st *State) Val {
 		}
 	}
 	return Val{}
+}
+
+// aliasScreen (option aliasscreen): the engine gives append a fresh backing array, which is only faithful when
+// the first operand has no spare capacity shared with live data. In a function that opts in, an append onto a
+// re-slice x[:n] of an existing slice must cap the capacity (x[:n:n]); otherwise the real append may write into
+// x's backing array and the obligation `safety:alias` fails.
+func (s *Session) aliasScreen(fr *Frame, cc *ssa.CallCommon, st *State) {
+	if !fr.top || fr.contract == nil || fr.contract.Options["aliasscreen"] == "" {
+		return
+	}
+	sl, ok := cc.Args[0].(*ssa.Slice)
+	if !ok {
+		return
+	}
+	if _, isSlice := sl.X.Type().Underlying().(*types.Slice); !isSlice {
+		return
+	}
+	// fresh source (make in this function) is harmless
+	if _, isMk := sl.X.(*ssa.MakeSlice); isMk {
+		return
+	}
+	capped := false
+	if sl.Max != nil && sl.High != nil {
+		hi := s.valueOf(fr, sl.High).T0()
+		mx := s.valueOf(fr, sl.Max).T0()
+		capped = hi.S == mx.S
+	}
+	fr.nSafety["alias"]++
+	s.addObl(&Obligation{Name: fmt.Sprintf("%s/safety:alias#%d", fr.oblPfx, fr.nSafety["alias"]), Kind: "safety", Func: fr.oblPfx,
+		Src: "append onto a re-slice of an existing slice must not share its backing array (use x[:n:n])", Guard: st.Reach, Formula: B(capped)})
 }
